@@ -10,9 +10,11 @@ package log
 //@ ghost lines int
 //@ ghost nextCalls int
 //@ ghost errWrites int
+//@ // handlers below may rewrite the request in place (rewrite, tryfiles, ext do): the URL fields are in the interface's frame
 //@ extern invoke:(github.com/tmpim/casket/caskethttp/httpserver.Handler).ServeHTTP
-//@   modifies ghost:nextCalls
+//@   modifies ghost:nextCalls, URL.Path, URL.RawPath, URL.RawQuery
 //@   may_panic
+//@   ensures [only_this_requests_url] unchanged_except("URL.Path", arg1.URL) && unchanged_except("URL.RawPath", arg1.URL) && unchanged_except("URL.RawQuery", arg1.URL)
 //@   ensures nextCalls == old(nextCalls) + 1
 //@ extern (github.com/tmpim/casket/caskethttp/httpserver.Path).Matches
 //@   pure
